@@ -19,8 +19,8 @@ CLAIMED = {
  "C05": dict(
     category="translation_validation",
     text="Every BlockTranslationResult the seven real translators return on a structured byte sweep is judged by a Lean "
-         "checker (width rules of all expressions and operations, entry/exit/edges of each instruction graph, out-edge and "
-         "successor guards recognised as a partition) whose soundness is a Lean theorem over all states; panics are caught "
+         "checker (width rules of all expressions and operations, entry/exit/edges of each instruction graph, no reachable dead-end "
+         "block and no edge out of the exit, out-edge and successor guards recognised as a partition) whose soundness is a Lean theorem over all states; panics are caught "
          "and reported with their site. Totality over all byte strings is explored, not proved.",
     design_ref="DESIGN.md §6 C05",
     note="Trusted: Lean kernel, the FIL printer/reader pair, catch_unwind. 'Never panics/terminates' concerns Rust and C "
@@ -213,7 +213,8 @@ CLAIMED = {
          "equations without any monotonicity assumption; a re-computation that is not >= the stored state yields FixedPointOrdering; "
          "termination within 1+|Reach|(h+1)(D+1) iterations; for monotone analyses with join = lub the run returns exactly the least "
          "solution; both solvers instantiated over the C18 location model. Tied to the code by a three-way correspondence check with "
-         "table-driven analyses (spec = Kleene iteration).",
+         "table-driven analyses (spec = Kleene iteration); falcon's own Ok answers of strict runs are re-checked against the data-flow "
+         "equations on every case (an Ok map that does not solve them is a violation with the request as failing input).",
     design_ref="DESIGN.md §6 C09",
     note="Hypotheses are named in the theorems (ConvR, LawfulCmp, JoinLub, Mono, Total, rank); HashMap/VecDeque are modelled as lists; "
          "with force only the weaker >= claim holds, by design.",
